@@ -105,6 +105,13 @@ impl Ctx {
         x % one_in.max(1) == 0
     }
 
+    /// Number of reported (not known) violations whose key ends in `#does-not-terminate`: checks
+    /// whose every watchdog hit costs the full cap (and a leaked spinning thread) stop collecting
+    /// further witnesses once a few exist.
+    pub fn hangs_reported(&self) -> u64 {
+        self.viol.iter().filter(|(k, _)| k.contains("#does-not-terminate")).map(|(_, v)| v.0).sum()
+    }
+
     pub fn is_known(&self, key: &str) -> bool {
         self.findings
             .iter()
